@@ -593,6 +593,8 @@ func (n *normaliser) pureFunc(f *types.Func) bool {
 			(recv == "Request" && f.Name() == "Context")
 	case "net/textproto":
 		return recv == "" && f.Name() == "CanonicalMIMEHeaderKey"
+	case "go/token":
+		return recv == "" && (f.Name() == "IsKeyword" || f.Name() == "IsIdentifier" || f.Name() == "IsExported" || f.Name() == "Lookup")
 	case "fmt":
 		return recv == "" && (f.Name() == "Sprintf" || f.Name() == "Sprint" || f.Name() == "Sprintln")
 	case "errors":
